@@ -51,32 +51,20 @@ function REJECTED(f){
 }
 `
 
-func cfg(c *core.Ctx, fam string, nsel int) string {
-	return fmt.Sprintf("CONSTANTS\n OpenDev = %s\n Fam = %q\n Tier = %q\n NSel = %d\nINIT Init\nNEXT Next\nINVARIANT Emit\nCHECK_DEADLOCK FALSE\n",
-		core.TLASet(c.Findings.OpenIDs()), fam, c.Tier, nsel)
+// cfg renders the TLC configuration of one generator run: the families, the
+// number of subjects per exec case (NSel; twice that for f1), of subjects per
+// pattern of the string-method family (NStrm) and of patterns per block (NPat);
+// 0 = all.
+func cfg(c *core.Ctx, fams []string, nsel, nstrm, npat int) string {
+	return fmt.Sprintf("CONSTANTS\n OpenDev = %s\n Fams = %s\n Tier = %q\n NSel = %d\n NStrm = %d\n NPat = %d\nINIT Init\nNEXT Next\nINVARIANT Emit\nCHECK_DEADLOCK FALSE\n",
+		core.TLASet(c.Findings.OpenIDs()), core.TLASet(fams), c.Tier, nsel, nstrm, npat)
 }
 
-// nsel gives the number of subjects (exec families) or subjects per pattern
-// (strm) drawn per case; 0 = all.
-func nsel(c *core.Ctx, fam string) int {
+func bounds(c *core.Ctx) (nsel, nstrm, npat int) {
 	if c.Thorough() {
-		switch fam {
-		case "f1":
-			return 0
-		case "strm":
-			return 6
-		default:
-			return 40
-		}
+		return 48, 8, 0
 	}
-	switch fam {
-	case "f1":
-		return 24
-	case "strm":
-		return 1
-	default:
-		return 10
-	}
+	return 8, 1, 25
 }
 
 func families() []string {
@@ -85,7 +73,17 @@ func families() []string {
 		json.Unmarshal([]byte(f), &r)
 		return r
 	}
-	return []string{"syntax", "esc", "f1", "f2", "f3", "f4", "f5", "f6", "strm"}
+	return []string{"syntax", "esc", "f1", "f2", "f3", "f4", "f5", "f6", "strm", "hist", "xlate"}
+}
+
+func genFamilies() []string {
+	var r []string
+	for _, f := range families() {
+		if f != "xlate" && f != "hist" {
+			r = append(r, f)
+		}
+	}
+	return r
 }
 
 var Spec = &gen.Spec{
@@ -93,14 +91,12 @@ var Spec = &gen.Spec{
 	Prelude: Prelude,
 	PerVM:   50,
 	Runs: func(c *core.Ctx) []gen.RunCfg {
-		var r []gen.RunCfg
-		for _, f := range families() {
-			if f == "xlate" || f == "hist" {
-				continue
-			}
-			r = append(r, gen.RunCfg{Name: f + "-" + c.Tier, Cfg: cfg(c, f, nsel(c, f)), Opts: tlc.Opts{Seed: c.Seed}})
+		fams := genFamilies()
+		if len(fams) == 0 {
+			return nil
 		}
-		return r
+		nsel, nstrm, npat := bounds(c)
+		return []gen.RunCfg{{Name: fmt.Sprintf("generator-%v-%s", fams, c.Tier), Cfg: cfg(c, fams, nsel, nstrm, npat), Opts: tlc.Opts{Seed: c.Seed}}}
 	},
 	Assume: []string{
 		"patterns: the families of spec/C10.tla (atoms x quantifiers, two-term sequences and alternations, quantified groups, nested groups, nullable loop bodies, escape atoms) over the atoms of spec/C10Str.tla",
@@ -116,7 +112,7 @@ var Spec = &gen.Spec{
 // back-references and malformed texts must be refused by one of the two.
 func translate(c *core.Ctx) (map[string]any, error) {
 	var n, nOK, nRej, nLax, nDev int64
-	o := tlc.Opts{SpecDir: c.SpecDir, Module: "C10", Cfg: cfg(c, "xlate", 0), Workers: c.Workers, Timeout: 20 * time.Minute}
+	o := tlc.Opts{SpecDir: c.SpecDir, Module: "C10", Cfg: cfg(c, []string{"xlate"}, 0, 0, 0), Workers: c.Workers, Timeout: 20 * time.Minute}
 	res, err := tlc.Run(o, func(p []byte) {
 		var l struct {
 			Src []int  `json:"src"`
@@ -227,7 +223,7 @@ func Check(c *core.Ctx) (map[string]any, []string, error) {
 		return nil, nil, err
 	}
 	cov["rule"] = "one case per TLC state of the generator module (an exec case evaluates one pattern on a list of subjects), one case per transition of the lastIndex state machine"
-	if os.Getenv("VERIF_C10_FAMS") == "" || has(fams, "hist") {
+	if has(fams, "hist") {
 		hc, _, err := gen.Check(c, SpecH)
 		if err != nil {
 			return nil, nil, fmt.Errorf("lastIndex state machine: %v", err)
@@ -238,7 +234,7 @@ func Check(c *core.Ctx) (map[string]any, []string, error) {
 		cov["lastindex_state_machine"] = map[string]any{"transitions_replayed": hc["evaluations"], "distinct_expected_outcomes": hc["distinct_expected_outcomes"],
 			"model_properties_checked": []string{"LastIndexShape", "NonGlobalNeverAdvances", "SearchSplitLeaveState"}}
 	}
-	if os.Getenv("VERIF_C10_FAMS") == "" || has(fams, "xlate") {
+	if has(fams, "xlate") {
 		tr, err := translate(c)
 		if err != nil {
 			return nil, nil, fmt.Errorf("translation pass: %v", err)
